@@ -237,5 +237,8 @@ class TriggerHandler:
 
         Reset the settrace to the previous values.
         """
+        # if we did not install our trace functions (NO_TRACE), then the ones in place are not ours to remove
+        if self._config.NO_TRACE:
+            return
         sys.settrace(self.__old_sys_trace)
         threading.settrace(self.__old_thread_trace)
